@@ -13,8 +13,10 @@ spec -> code: IpcReply_Export enumerates the request catalogue of IpcReply_Cases
               (dispatch) / .read / .write (framing) -> the real IpcCommand objects.  Only the two pipe
               ends, run_phase (= "the phase runs, the daemon sends these lines") and shutdown are fake.
 code -> spec: seeded random longer streams over the same catalogue.
-Both are judged by IpcReply_Trace: OneReply, SingleLine, Truthful, FailureMessage, FatalFailsBuild,
-SuccessKeepsBuild, NonfatalContinues, RequestFraming, Payload.
+bash side   : the nonfatal fault-free requests again, this time made by the REAL bash function
+              __ebd_ipc_cmd over real pipes (run_bash_phase); the status bash ends up with is recorded.
+All are judged by IpcReply_Trace: OneReply, SingleLine, Truthful, FailureMessage, FatalFailsBuild,
+SuccessKeepsBuild, NonfatalContinues, RequestFraming, Payload, BashSeesStatus.
 
 "Did the action succeed" is OBSERVED (probes of the template evaluated on the image / working
 directory / helper state after the request), never derived from the reply.
@@ -589,10 +591,8 @@ def run(ck):
         singles.sort(key=stream_key)
         pairs.sort(key=stream_key)
         r_ = rng(32)
-        if ck.quick:
-            pairs = r_.sample(pairs, min(len(pairs), 200))
-        else:
-            ck.exhaustive = True
+        pairs = r_.sample(pairs, min(len(pairs), ck.pick(60, 1200)))
+        ck.exhaustive = False  # every atom is replayed (singles); pairs are sampled
         tid = 0
         for reqs in singles + pairs:
             do(reqs, tid)
@@ -602,7 +602,7 @@ def run(ck):
         atoms = {}
         for s in singles:
             atoms.setdefault(s[0]["t"]["eapi"], []).append(s[0])
-        for _ in range(ck.pick(80, 2500)):
+        for _ in range(ck.pick(30, 600)):
             eapi = r_.choice(["8", "8", "8", "8", "7", "6", "3"])
             pool = atoms[eapi]
             reqs = [r_.choice(pool) for _ in range(r_.randint(3, 8))]
@@ -613,10 +613,10 @@ def run(ck):
         plain = [s[0] for s in singles if s[0]["nonfatal"] and not s[0]["fault"] and s[0]["t"]["eapi"] == "8"]
         canary = singles[0][-1]
         bash_streams = [[a, dict(canary, nonfatal=True)] for a in plain]
-        for _ in range(ck.pick(10, 200)):
+        for _ in range(ck.pick(10, 120)):
             bash_streams.append([r_.choice(plain) for _ in range(r_.randint(3, 6))])
         if ck.quick:
-            bash_streams = bash_streams[::3]
+            bash_streams = bash_streams[::4]
         for reqs in bash_streams:
             streams[tid] = reqs
             before = len(events)
